@@ -148,9 +148,9 @@ func init() {
 			"names): every file under ES5 loads and leaves a function at each template's qualified name, under ES6 parses and exports it. distinct = distinct (site, literal) / bundle; non-trivial = literal contains a character that needs escaping",
 		N: func(tier string) int {
 			if tier == "thorough" {
-				return nStr*len(c14Sites) + 40000 + 20000
+				return nStr*len(c14Sites) + 300000 + 100000
 			}
-			return nStr*len(c14Sites) + 1500 + 1000
+			return nStr*len(c14Sites) + 6000 + 4000
 		},
 		Setup: func(tier string, seed uint64, config string) string {
 			if _, err := engine(); err != nil {
@@ -162,9 +162,9 @@ func init() {
 			e, _ := engine()
 			ctx.Cell("engine:" + e.Name())
 			nLit := nStr * len(c14Sites)
-			nRandLit := 1000
+			nRandLit := 4000
 			if ctx.Tier == "thorough" {
-				nRandLit = 20000
+				nRandLit = 100000
 			}
 			if i < nLit+nRandLit {
 				var s, site string
@@ -233,7 +233,7 @@ func init() {
 			g.O = c02Opts(ctx.Rng, ctx.Tier)
 			g.O.Msgs, g.O.Astral = true, true
 			prog := g.Bundle(1+ctx.Rng.Intn(3), 2+ctx.Rng.Intn(4))
-			files := bundleSources(prog.B, ref.Layout{})
+			files := bundleSources(prog.B, ref.Layout{Multiline: i%4 == 1, CRLF: i%5 == 3})
 			if ctx.Rng.P(1, 3) {
 				// JS reserved words as variable names
 				w := c14Reserved[ctx.Rng.Intn(len(c14Reserved))]
